@@ -22,7 +22,7 @@ ASSUMPTIONS = ["asn1tools' UPER codec is the only decoder available: a symmetric
                "tolerance 1 LSB of the data element; at the exact class boundaries of the confidence enumerations either neighbour is accepted",
                "semiMajorAxisOrientation and the unit of cluster radii are not judged (the service's intention is not documented)"]
 REQUIRED_COUNTERS = ["cam.reports", "cam.elements_compared", "vam.reports", "vam.elements_compared", "denm.requests", "denm.elements_compared",
-                     "cluster.leader_vams", "cluster.operation_containers", "gdt.reconstructions", "camtraj.reports", "camtraj.path_points_compared"]
+                     "cluster.leader_vams", "cluster.operation_containers", "gdt.reconstructions", "camtraj.reports", "camtraj.path_points_compared", "keytraj.reports", "keytraj.elements_compared"]
 
 ITS_EPOCH_MS = 1072915200000
 ALT_CONF = [(0.01, "alt-000-01"), (0.02, "alt-000-02"), (0.05, "alt-000-05"), (0.1, "alt-000-10"), (0.2, "alt-000-20"), (0.5, "alt-000-50"), (1, "alt-001-00"),
@@ -337,6 +337,99 @@ def run_camtraj(spec, res):
         clock.uninstall()
 
 
+def run_keytraj(spec, res):
+    """Report streams through ONE long-lived CA / VRU service instance in which the set of keys changes from report to
+    report (a receiver going from a 3D fix to a 2D fix to position only, standstill without track, ...): every message
+    must encode ITS OWN report -- a field the report lacks is 'unavailable', never the value of an earlier report."""
+    import time as real_time
+    from vf.vclock import VClock
+    from flexstack.facilities.ca_basic_service import cam_transmission_management as ctm
+    from flexstack.facilities.ca_basic_service.cam_coder import CAMCoder
+    from flexstack.facilities.vru_awareness_service import vam_transmission_management as vtm
+    from flexstack.facilities.vru_awareness_service.vam_coder import VAMCoder
+    rng = random.Random(spec["seed"])
+    clock = VClock().install()
+    saved = real_time.time
+    real_time.time = clock.now
+    try:
+        cam_coder, vam_coder = CAMCoder(), VAMCoder()
+        for k in range(spec["cases"]):
+            which = "cam" if k % 2 == 0 else "vam"
+            btp = RecBTP()
+            sid = rng.randrange(1, 1 << 32)
+            if which == "cam":
+                tm = ctm.CAMTransmissionManagement(btp, cam_coder, ctm.VehicleData(station_id=sid, station_type=5))
+                tm._active = True
+                coder, step_s = cam_coder, 1.1
+            else:
+                plain = rng.random() < 0.5      # device data configured with plain dicts (as applications and tests do) or the defaults
+                kw = {"heading": {"value": 3601, "confidence": 127}, "speed": {"speedValue": 16383, "speedConfidence": 127}} if plain else {}
+                tm = vtm.VAMTransmissionManagement(btp, vam_coder, vtm.DeviceDataProvider(station_id=sid, station_type=1, **kw))
+                coder, step_s = vam_coder, 5.2
+            lat, lon = rng.uniform(-60, 60), rng.uniform(-170, 170)
+            reports = []
+            for i in range(rng.randrange(3, 8)):
+                clock.advance(step_s)
+                tpv, dropped = gen_report(rng, clock.now())
+                lat, lon = lat + rng.uniform(-1e-4, 1e-4), lon + rng.uniform(-1e-4, 1e-4)
+                tpv["lat"], tpv["lon"] = lat, lon
+                for kk in ("epx", "epy", "epv", "epd"):        # error estimates in their nominal ranges: extremes are the single-report parts' business
+                    if kk in tpv:
+                        tpv[kk] = min(tpv[kk], 10.0) if kk != "epd" else max(0.2, min(tpv[kk], 10.0))
+                if "altHAE" in tpv:
+                    tpv["altHAE"] = max(-500.0, min(5000.0, tpv["altHAE"]))
+                reports.append(tpv)
+                ctx = {"service": "keytraj", "which": which, "reports": list(reports)}
+                n0 = len(btp.reqs)
+                res.count("keytraj.reports")
+                try:
+                    tm.location_service_callback(tpv)
+                    if which == "cam":
+                        tm._evaluate_and_maybe_send()
+                except Exception as e:  # noqa
+                    res.violation(f"C11:{which}:generation-raises-{type(e).__name__}[report-stream-with-changing-keys]", f"{e!r}", ctx)
+                    break
+                if len(btp.reqs) != n0 + 1:
+                    res.violation(f"C11:{which}:generation-skipped-or-stalled[report-stream-with-changing-keys]", f"report {i}: {len(btp.reqs) - n0} messages", ctx)
+                    continue
+                try:
+                    d = coder.decode(btp.reqs[-1].data)
+                except Exception as e:  # noqa
+                    res.violation(f"C11:{which}:payload-undecodable[report-stream-with-changing-keys]", f"{e!r}", ctx)
+                    continue
+                sub = Result_tag(res, "[after-earlier-reports-with-other-keys]" if i else "")
+                if which == "cam":
+                    p = d["cam"]["camParameters"]
+                    hf = p["highFrequencyContainer"][1]
+                    n = check_common("cam", sub, ctx, tpv, p["basicContainer"]["referencePosition"], (hf["heading"]["headingValue"], hf["heading"]["headingConfidence"]), None,
+                                     hf["speed"]["speedValue"], {"heading": 3601, "speed": 16383})
+                else:
+                    p = d["vam"]["vamParameters"]
+                    hf = p["vruHighFrequencyContainer"]
+                    n = check_common("vam", sub, ctx, tpv, p["basicContainer"]["referencePosition"], (hf["heading"]["value"], hf["heading"]["confidence"]), None,
+                                     hf["speed"]["speedValue"], {"heading": 3601, "speed": 16383})
+                res.count("keytraj.elements_compared", n)
+            res.case(repr((which, reports)))
+            if k == 0:
+                res.sample({"service": "keytraj", "which": which, "reports": reports[:3]})
+    finally:
+        real_time.time = saved
+        clock.uninstall()
+
+
+class Result_tag:
+    """Result proxy that appends an input-class tag to every violation key."""
+
+    def __init__(self, res, tag):
+        self.res, self.tag = res, tag
+
+    def violation(self, key, desc, case):
+        self.res.violation(key + self.tag, desc, case)
+
+    def count(self, *a, **k):
+        self.res.count(*a, **k)
+
+
 def run_vam(spec, res):
     import time as real_time
     from vf.vclock import VClock
@@ -542,18 +635,19 @@ def run_gdt(spec, res):
 
 
 def run_shard(spec, res):
-    {"cam": run_cam, "camtraj": run_camtraj, "vam": run_vam, "denm": run_denm, "gdt": run_gdt}[spec["part"]](spec, res)
+    {"cam": run_cam, "camtraj": run_camtraj, "keytraj": run_keytraj, "vam": run_vam, "denm": run_denm, "gdt": run_gdt}[spec["part"]](spec, res)
 
 
 def shards(tier, seed):
     if tier == "thorough":
         return ([{"part": "cam", "seed": seed * 103 + i, "cases": 20000} for i in range(6)] + [{"part": "vam", "seed": seed * 107 + i, "cases": 20000} for i in range(6)] +
                 [{"part": "denm", "seed": seed * 109 + i, "cases": 8000} for i in range(3)] + [{"part": "gdt", "seed": seed * 113, "cases": 400000}] +
-                [{"part": "camtraj", "seed": seed * 127 + i, "cases": 4000} for i in range(4)])
+                [{"part": "camtraj", "seed": seed * 127 + i, "cases": 4000} for i in range(4)] + [{"part": "keytraj", "seed": seed * 131 + i, "cases": 4000} for i in range(4)])
     return ([{"part": "cam", "seed": seed * 103 + i, "cases": 700} for i in range(3)] + [{"part": "vam", "seed": seed * 107 + i, "cases": 700} for i in range(3)] +
-            [{"part": "denm", "seed": seed * 109, "cases": 400}, {"part": "gdt", "seed": seed * 113, "cases": 20000}, {"part": "camtraj", "seed": seed * 127, "cases": 250}])
+            [{"part": "denm", "seed": seed * 109, "cases": 400}, {"part": "gdt", "seed": seed * 113, "cases": 20000}, {"part": "camtraj", "seed": seed * 127, "cases": 250},
+             {"part": "keytraj", "seed": seed * 131, "cases": 200}])
 
 
 def replay(case, res):
     svc = case.get("service") or case.get("part")
-    run_shard({"part": svc if svc in ("cam", "camtraj", "vam", "denm", "gdt") else "cam", "seed": 0, "cases": 300}, res)
+    run_shard({"part": svc if svc in ("cam", "camtraj", "keytraj", "vam", "denm", "gdt") else "cam", "seed": 0, "cases": 300}, res)
